@@ -26,6 +26,7 @@ import (
 	"bytes"
 	"encoding/json"
 	"fmt"
+	"io"
 	"strings"
 
 	"github.com/danos/encoding/rfc7951"
@@ -56,7 +57,14 @@ func decodeValue(val interface{}) (string, error) {
 		} else {
 			return "false", nil
 		}
-	case float64: // Non-empty Leaf containing number of any sort
+	case json.Number: // Non-empty Leaf containing number of any sort
+		// The digits as written: the leaf's type decides whether they are
+		// a value (a float64 would alter integers beyond 2^53 and
+		// converting it to int would turn 1.5 into 1).
+		return typeValue.String(), nil
+	case rfc7951.Number:
+		return typeValue.String(), nil
+	case float64:
 		return fmt.Sprintf("%d", int(typeValue)), nil
 	case nil: // Empty leaf
 		return "", nil
@@ -176,14 +184,27 @@ func unmarshalJSONInternal(
 ) (datanode.DataNode, error) {
 
 	jr := JSONReader{decodedName: sn.Name()}
+	// Numbers are kept as written (see decodeValue).
+	var decode func(v interface{}) error
 	if enc == RFC7951 {
-		if err := rfc7951.Unmarshal(json_input, &jr.decodedMsg); err != nil {
-			return nil, err
-		}
+		dec := rfc7951.NewDecoder(bytes.NewReader(json_input))
+		dec.UseNumber()
+		decode = dec.Decode
 	} else {
-		if err := json.Unmarshal(json_input, &jr.decodedMsg); err != nil {
-			return nil, err
+		dec := json.NewDecoder(bytes.NewReader(json_input))
+		dec.UseNumber()
+		decode = dec.Decode
+	}
+	if err := decode(&jr.decodedMsg); err != nil {
+		return nil, err
+	}
+	// As with Unmarshal, nothing may follow the document.
+	var trailing interface{}
+	if err := decode(&trailing); err != io.EOF {
+		if err == nil {
+			err = fmt.Errorf("invalid data after top-level value")
 		}
+		return nil, err
 	}
 
 	datatree, err := convertToDataNode([]string{}, sn.Name(), &jr, sn)
